@@ -100,7 +100,7 @@ static void wide_sink(const char *name, int shape, const Values &v, const char *
     dress_stream(os, S(fmt), shape);
     vrt::evals();
     try {
-        call_shape(shape, v, fmt, nullptr, [&](const char *f, auto &&...a) { ST::writef(os, f, a...); });
+        call_shape_x(shape, v, fmt, nullptr, [&](const char *f, auto &&...a) { ST::writef(os, f, a...); });
     } catch (const std::exception &e) {
         vrt::violation(sfmt("C17:writef<%s>:threw:%s", name, vrt::demangle(typeid(e).name()).c_str()), ctx + " " + e.what());
         return;
@@ -116,13 +116,19 @@ static void wide_sink(const char *name, int shape, const Values &v, const char *
     if (!os.good()) vrt::violation(sfmt("C17:writef<%s>:stream-failed", name), ctx);
 }
 
+// history phases: the order of the sinks (rotated), and a lighter sink_case for the soak (the two sinks that need a file
+// descriptor of their own - a real file, standard output - are tried on every eighth call only)
+static unsigned g_sink_rotation = 0;
+static bool g_light_sinks = false;
+static unsigned g_light_turn = 0;
+
 static void sink_case(int shape, const Values &v, const S &fmt)
 {
     vrt::Exact<char> f(fmt.data(), fmt.size(), true);
     vrt::cur_rewind();
     vrt::cur_printf("shape=%d fmt=%s\n", shape, show(fmt).c_str());
     std::vector<Arg> args;
-    call_shape(shape, v, "", &args, [](const char *, auto &&...) {});
+    call_shape_x(shape, v, "", &args, [](const char *, auto &&...) {});
     std::string ctx = fmt.size() > 2000 ? sfmt("shape=%d fmt: %s (starts: \"%s\") args: %s", shape, scale::brief(fmt).c_str(), vrt::json_escape(fmt.substr(0, 60)).c_str(), describe_values(args).c_str())
                                         : sfmt("shape=%d fmt=\"%s\" args: %s", shape, vrt::json_escape(fmt).c_str(), describe_values(args).c_str());
     // reference output: ST::format itself (C11 checks it against the specification)
@@ -132,7 +138,7 @@ static void sink_case(int shape, const Values &v, const S &fmt)
     bool bytes_only = false;
     vrt::evals(2);
     try {
-        call_shape(shape, v, f.data(), nullptr, [&](const char *fs, auto &&...a) {
+        call_shape_x(shape, v, f.data(), nullptr, [&](const char *fs, auto &&...a) {
             ST::string q = ST::format(ST::assume_valid, fs, a...);
             raw.assign(q.c_str(), q.size());
         });
@@ -141,7 +147,7 @@ static void sink_case(int shape, const Values &v, const S &fmt)
         return;
     }
     try {
-        call_shape(shape, v, f.data(), nullptr, [&](const char *fs, auto &&...a) {
+        call_shape_x(shape, v, f.data(), nullptr, [&](const char *fs, auto &&...a) {
             ST::string r = ST::format(fs, a...);
             want.assign(r.c_str(), r.size());
         });
@@ -156,14 +162,14 @@ static void sink_case(int shape, const Values &v, const S &fmt)
         return;
     }
     // FILE* sink
-    {
+    const auto memory_file_sink = [&] {
         char *mem = nullptr;
         size_t msz = 0;
         FILE *fp = open_memstream(&mem, &msz);
         vrt::evals();
         bool threw = false;
         try {
-            call_shape(shape, v, f.data(), nullptr, [&](const char *fs, auto &&...a) { ST::printf(fp, fs, a...); });
+            call_shape_x(shape, v, f.data(), nullptr, [&](const char *fs, auto &&...a) { ST::printf(fp, fs, a...); });
         } catch (const std::exception &e) {
             threw = true;
             vrt::violation(sfmt("C17:printf:threw:%s", vrt::demangle(typeid(e).name()).c_str()), ctx + " " + e.what());
@@ -172,10 +178,11 @@ static void sink_case(int shape, const Values &v, const S &fmt)
         if (!threw && S(mem, msz) != want)
             vrt::violation("C17:printf:differs-from-format", sfmt("%s got=%s want=%s%s", ctx.c_str(), show(S(mem, msz)).c_str(), show(want).c_str(), diff_note(S(mem, msz), want).c_str()));
         free(mem);
-    }
+    };
     // one case in four: a real file opened for writing whose sticky error indicator was set by an earlier failed read
     // (it still accepts writes): the sink's output is specified by its bytes, not by the stream's flags
-    if (vrt::fnv1a(fmt.data(), fmt.size(), 0x51) % 4 == 0) {
+    const auto real_file_sink = [&] {
+        if (vrt::fnv1a(fmt.data(), fmt.size(), 0x51) % 4 != 0 || (g_light_sinks && g_light_turn % 8 != 0)) return;
         const std::string path = vrt::opt().outdir + sfmt("/w%d.sink", vrt::opt().worker);
         FILE *fp = fopen(path.c_str(), "w");
         if (!fp) { fprintf(stderr, "vrt: cannot create %s\n", path.c_str()); _exit(98); }
@@ -184,7 +191,7 @@ static void sink_case(int shape, const Values &v, const S &fmt)
         vrt::evals();
         bool threw = false;
         try {
-            call_shape(shape, v, f.data(), nullptr, [&](const char *fs, auto &&...a) { ST::printf(fp, fs, a...); });
+            call_shape_x(shape, v, f.data(), nullptr, [&](const char *fs, auto &&...a) { ST::printf(fp, fs, a...); });
         } catch (const std::exception &e) {
             threw = true;
             vrt::violation(sfmt("C17:printf(file with error indicator):threw:%s", vrt::demangle(typeid(e).name()).c_str()), ctx + " " + e.what());
@@ -196,9 +203,10 @@ static void sink_case(int shape, const Values &v, const S &fmt)
         if (!threw && got != want)
             vrt::violation("C17:printf(file with error indicator):differs-from-format", sfmt("%s got=%s want=%s%s", ctx.c_str(), show(got).c_str(), show(want).c_str(), diff_note(got, want).c_str()));
         if (flagged) vrt::count("printf.file_with_error_indicator");
-    }
+    };
     // the overload without a FILE*: standard output, captured through a memory file put in place of descriptor 1
-    {
+    const auto stdout_sink = [&] {
+        if (g_light_sinks && g_light_turn % 8 != 0) return;
         vrt::evals();
         bool threw = false;
         S got;
@@ -206,7 +214,7 @@ static void sink_case(int shape, const Values &v, const S &fmt)
         const int saved = dup(1), mfd = memfd_create("vrt-stdout", 0);
         if (saved < 0 || mfd < 0 || dup2(mfd, 1) < 0) { fprintf(stderr, "vrt: cannot redirect stdout\n"); _exit(98); }
         try {
-            call_shape(shape, v, f.data(), nullptr, [&](const char *fs, auto &&...a) { ST::printf(fs, a...); });
+            call_shape_x(shape, v, f.data(), nullptr, [&](const char *fs, auto &&...a) { ST::printf(fs, a...); });
         } catch (const std::exception &e) {
             threw = true;
             fflush(stdout);
@@ -222,26 +230,27 @@ static void sink_case(int shape, const Values &v, const S &fmt)
         if (!threw && got != want)
             vrt::violation("C17:printf(stdout):differs-from-format", sfmt("%s got=%s want=%s%s", ctx.c_str(), show(got).c_str(), show(want).c_str(), diff_note(got, want).c_str()));
         vrt::count("printf.stdout_captured");
-    }
+    };
     // narrow stream sink
-    {
+    const auto narrow_stream_sink = [&] {
         std::ostringstream os;
         dress_stream(os, fmt, shape);
         vrt::evals();
         try {
-            call_shape(shape, v, f.data(), nullptr, [&](const char *fs, auto &&...a) { ST::writef(os, fs, a...); });
+            call_shape_x(shape, v, f.data(), nullptr, [&](const char *fs, auto &&...a) { ST::writef(os, fs, a...); });
             if (os.str() != want)
                 vrt::violation("C17:writef<char>:differs-from-format", sfmt("%s got=%s want=%s%s", ctx.c_str(), show(os.str()).c_str(), show(want).c_str(), diff_note(os.str(), want).c_str()));
         } catch (const std::exception &e) {
             vrt::violation(sfmt("C17:writef<char>:threw:%s", vrt::demangle(typeid(e).name()).c_str()), ctx + " " + e.what());
         }
-    }
+    };
     // the _stfmt literal formatter (validates like ST::format)
-    if (!bytes_only) {
+    const auto stfmt_sink = [&] {
+        if (bytes_only) return;
         vrt::evals();
         try {
             S got;
-            call_shape(shape, v, f.data(), nullptr, [&](const char *fs, auto &&...a) {
+            call_shape_x(shape, v, f.data(), nullptr, [&](const char *fs, auto &&...a) {
                 ST::string r = ST::literals::operator""_stfmt(fs, strlen(fs))(a...);
                 got.assign(r.c_str(), r.size());
             });
@@ -249,25 +258,38 @@ static void sink_case(int shape, const Values &v, const S &fmt)
         } catch (const std::exception &e) {
             vrt::violation(sfmt("C17:_stfmt:threw:%s", vrt::demangle(typeid(e).name()).c_str()), ctx + " " + e.what());
         }
-    }
+    };
     // Latin-1 reading of the same bytes
-    {
+    const auto latin_1_sink = [&] {
         vrt::evals();
         try {
             S got;
-            call_shape(shape, v, f.data(), nullptr, [&](const char *fs, auto &&...a) { ST::string r = ST::format_latin_1(fs, a...); got.assign(r.c_str(), r.size()); });
+            call_shape_x(shape, v, f.data(), nullptr, [&](const char *fs, auto &&...a) { ST::string r = ST::format_latin_1(fs, a...); got.assign(r.c_str(), r.size()); });
             if (got != latin1_to_utf8(raw))
                 vrt::violation("C17:format_latin_1:differs", sfmt("%s got=%s want=%s%s", ctx.c_str(), show(got).c_str(), show(latin1_to_utf8(raw)).c_str(), diff_note(got, latin1_to_utf8(raw)).c_str()));
         } catch (const std::exception &e) {
             vrt::violation(sfmt("C17:format_latin_1:threw:%s", vrt::demangle(typeid(e).name()).c_str()), ctx + " " + e.what());
         }
-    }
-    if (!bytes_only) {
+    };
+    const auto wide_stream_sinks = [&] {
+        if (bytes_only) return;
         if (want.size() >= 65536) vrt::count("scale.wide_sinks_transcoded_a_result>=64KiB");
         wide_sink<wchar_t>("wchar_t", shape, v, f.data(), want, ctx);
         wide_sink<char16_t>("char16_t", shape, v, f.data(), want, ctx);
         wide_sink<char32_t>("char32_t", shape, v, f.data(), want, ctx);
-    }
+    };
+    // (the history phases rotate the order in which the sinks are tried; the verdicts do not depend on it)
+    for (unsigned q = 0; q < 7; ++q)
+        switch ((q + g_sink_rotation) % 7) {
+        case 0: memory_file_sink(); break;
+        case 1: real_file_sink(); break;
+        case 2: stdout_sink(); break;
+        case 3: narrow_stream_sink(); break;
+        case 4: stfmt_sink(); break;
+        case 5: latin_1_sink(); break;
+        default: wide_stream_sinks(); break;
+        }
+    ++g_light_turn;
     vrt::count("format.compared");
     if (!ascii(want)) vrt::count("format.non_ascii_output");
     if (want.size() > 300) vrt::count("format.long_output");
@@ -354,6 +376,281 @@ static void extract_case(const char *name, const std::vector<unsigned long> &cps
     }
 }
 
+// ---------------------------------------------------------------- "state that survives a call" / "where the data lives"
+// (rt/ref_format.h, sections 5-7): formatters that call back into the library, the caller's stack, format strings behind
+// foreign bytes, buffers rewritten in place, tens of thousands of consecutive calls in one case - all through sink_case():
+// every sink must still emit what ST::format returns.
+struct SoakEntry {
+    Values v;
+    Reent x;
+    int shape = 0;
+    S fmt;
+    int mode = 0;
+    size_t slot = 256, align = 0;
+    int depth = 0;
+    unsigned rot = 0;
+};
+static void soak_execute(SoakEntry &e)
+{
+    Placement &pl = placement();
+    pl.mode = e.mode; pl.slot = e.slot; pl.depth = e.depth; pl.rot = e.rot; pl.align = e.align;
+    ReentScope rs(&e.x);
+    sink_case(e.shape, e.v, e.fmt);
+}
+// a random call as in the "formats" phase, with shorter pad runs
+static void random_sink_call(Rng &r, Values &v, int &shape, ScaleFmt &sf)
+{
+    random_values(r, v);
+    shape = static_cast<int>(r.below(NSHAPES));
+    std::vector<Arg> args;
+    call_shape_x(shape, v, "", &args, [](const char *, auto &&...) {});
+    sf.lit(random_literal(r));
+    const size_t nf = args.empty() ? 0 : r.below(4);
+    for (size_t k = 0; k < nf; ++k) {
+        Field f = random_field(r, false);
+        if (f.width > 60) f.width = static_cast<int>(1 + r.below(60));
+        f.argref = static_cast<int>(1 + r.below(args.size()));
+        sf.field(f);
+        sf.lit(random_literal(r));
+    }
+    fix_for_sinks(sf, args);
+}
+// flavour 0: boring (ASCII only, short); 1: random; 2: interesting
+static std::unique_ptr<SoakEntry> soak_entry(Rng &r, int flavour)
+{
+    std::unique_ptr<SoakEntry> e(new SoakEntry);
+    ReentScope rs(&e->x);
+    ScaleFmt sf;
+    if (flavour == 0) {
+        random_values(r, e->v);
+        set_all_texts(e->v, compose(r, r.below(20), BG_ASCII_RANDOM));
+        static const int shapes[] = {0, 1, 2, 3, 5, 45, 32};
+        e->shape = r.pick(shapes);
+        sf.lit(compose(r, 1 + r.below(30), BG_ASCII_RANDOM));
+        if (e->shape != 0 && r.chance(1, 2)) { sf.field(plain_field(0)); sf.lit(compose(r, r.below(8), BG_ASCII_RANDOM)); }
+    } else if (flavour == 1) {
+        random_sink_call(r, e->v, e->shape, sf);
+        if (r.chance(1, 6)) { e->mode = 3; e->align = r.below(16); }
+    } else {
+        switch (r.below(5)) {
+        case 0: reentrant_case(r, e->v, e->shape, sf); break;
+        case 1: { Placement pl; stack_case(r.below(200), r, e->v, e->shape, sf, pl, true); e->mode = 1; e->slot = pl.slot; e->depth = pl.depth; e->rot = pl.rot; break; }
+        case 2: {   // the only characters that are not ASCII sit in the last 1..7 bytes of a text of 16 bytes or more (argument or literal)
+            random_values(r, e->v);
+            const size_t n = 16 + r.below(300), tail = 2 + r.below(6);
+            std::vector<Plant> plants{Plant{n - tail, mb_char(r, static_cast<unsigned>(std::min<size_t>(tail, 2 + r.below(3))))}};
+            const S t = compose(r, n, BG_ASCII_RANDOM, plants);
+            static const int shapes[] = {2, 3, 31, 32, 5, 7, 45, 34, 38, 42, 13, 200};
+            e->shape = r.pick(shapes);
+            if (r.chance(1, 2)) { set_all_texts(e->v, t); std::vector<Arg> args; call_shape_x(e->shape, e->v, "", &args, [](const char *, auto &&...) {}); sf.lit(random_literal(r)); sf.field(plain_field(static_cast<int>(pick_text_arg(r, args, false) + 1))); }
+            else { sf.lit(t); if (r.chance(1, 2)) sf.field(plain_field(1)); }
+            break;
+        }
+        case 3: {   // the last append takes the output across 256 / 512 bytes
+            random_values(r, e->v);
+            e->shape = 5;
+            const size_t C = r.chance(2, 3) ? 256 : 512, P = 1 + r.below(40), B = C - r.below(P);
+            set_all_texts(e->v, compose(r, P, BG_ASCII_RANDOM));
+            sf.lit(compose(r, B, BG_ASCII_RANDOM)); sf.field(plain_field(r.chance(1, 2) ? 2 : 4));
+            break;
+        }
+        default: {  // pad runs of a few hundred
+            random_sink_call(r, e->v, e->shape, sf);
+            for (Field &f : sf.fields) if (f.cls != 'c') f.width = static_cast<int>(200 + r.below(400));
+            break;
+        }
+        }
+    }
+    e->fmt = sf.text();
+    return e;
+}
+
+static void history_phases()
+{
+    vrt::note("history phases: (reentrant) argument types whose format_type() calls ST::format / writef / printf itself - two and three of them in one call, trees of depth 2..4 whose nested calls have the "
+              "signature of the running call, nested calls that throw and are caught; (stack) format string and text arguments in local arrays of 64 B..8 KiB right above the library's frames, the output "
+              "outgrowing 256, 512, ... bytes with one append; (same_storage) format strings and arguments of identical size rewritten in place / rebuilt at the same address; (soak) more than 70000 "
+              "consecutive sink calls in one case; (alignment) format strings of 32..200 bytes at every start alignment with braces directly in front of them - all through every sink, tried in rotated order");
+    vrt::require("reentrant.cases", 5000);
+    vrt::require("reentrant.nested_calls_of_recursive_formatters", 100000);
+    vrt::require("reentrant.nested_call_with_the_signature_of_a_running_call", 50000);
+    vrt::require("reentrant.nested_call_with_the_signature_of_two_or_more_running_calls", 10000);
+    vrt::require("reentrant.nested_call_threw_and_was_caught_in_the_formatter", 10000);
+    vrt::require("reentrant.nested_call_through_writef", 10000);
+    vrt::require("reentrant.nested_call_through_printf", 10000);
+    vrt::require("reentrant.values_with_a_tree_of_depth_4", 500);
+    for (int k = 0; k < N_REENT_SHAPES; ++k) vrt::require(sfmt("reentrant.shape.%d", REENT_SHAPES[k]), 200);
+    vrt::phase("reentrant", vrt::tier_count(8000, 400000), [&](uint64_t i, Rng &r) {
+        PlacementScope ps;
+        g_light_sinks = false;
+        g_sink_rotation = static_cast<unsigned>(i % 7);
+        Values v;
+        int shape = 0;
+        ScaleFmt sf;
+        reentrant_case(r, v, shape, sf);
+        sink_case(shape, v, sf.text());
+        g_sink_rotation = 0;
+        if (vrt::want_sample("reentrant") && sf.len > 10 && sf.len < 60) vrt::sample("reentrant", sfmt("shape %d (formatters that call back into the library), format \"%s\", through all sinks", shape, vrt::json_escape(sf.text()).c_str()));
+    });
+
+    vrt::require("stack.cases", 3000);
+    vrt::require("stack.calls_with_format_string_and_arguments_in_the_caller's_frame", 30000);
+    vrt::require("stack.piece_is_a_text_argument", 1000);
+    vrt::require("stack.piece_is_a_literal_run", 400);
+    vrt::require("stack.piece_is_the_rendering_of_a_number", 250);
+    vrt::require("stack.lowest_array_less_than_4096_bytes_above_the_call", 15000);
+    vrt::require("stack.format_string_less_than_4096_bytes_above_the_call", 8000);
+    vrt::require("stack.output_crosses_256_bytes_in_one_append", 1000);
+    vrt::require("stack.output_crosses_512_bytes_in_one_append", 150);
+    vrt::require("stack.output_crosses_8192_bytes_in_one_append", 150);
+    vrt::phase("stack", vrt::tier_count(4000, 160000), [&](uint64_t i, Rng &r) {
+        PlacementScope ps;
+        g_light_sinks = false;
+        g_sink_rotation = static_cast<unsigned>(i % 7);
+        Values v;
+        int shape = 0;
+        ScaleFmt sf;
+        stack_case(i, r, v, shape, sf, placement(), true);
+        std::vector<Arg> args;
+        call_shape_x(shape, v, "", &args, [](const char *, auto &&...) {});
+        fix_for_sinks(sf, args);
+        sink_case(shape, v, sf.text());
+        if (r.chance(1, 8)) {
+            Values v2;
+            ScaleFmt sf2;
+            reentrant_case(r, v2, shape, sf2);
+            sink_case(shape, v2, sf2.text());
+        }
+        g_sink_rotation = 0;
+    });
+
+    vrt::require("same_storage.cases", 300);
+    vrt::require("same_storage.contents", 1200);
+    vrt::require("same_storage.format_string_rewritten_in_place", 1000);
+    vrt::require("same_storage.argument_buffers_rewritten_in_place", 2500);
+    vrt::require("same_storage.ST::string_successors_of_the_same_size", 500);
+    vrt::require("same_storage.ST::string_heap_block_at_the_address_of_its_predecessor", 250);
+    vrt::require("same_storage.failing_call_between_two_contents", 200);
+    vrt::phase("same_storage", vrt::tier_count(440, 13200), [&](uint64_t i, Rng &r) {
+        PlacementScope ps;
+        g_light_sinks = false;
+        static const size_t LS[] = {33, 40, 64, 100, 256, 300, 1024, 1500, 4096, 5000, 16387};
+        static const size_t AS[] = {20, 40, 64, 100, 256, 300, 1024, 1500, 4096, 5000};
+        const size_t L = LS[i % 11], A = AS[(i / 11) % 10], K = 3 + r.below(4);
+        placement().mode = 3;
+        placement().align = r.below(16);
+        const size_t arg_align = r.below(16);
+        CallerTexts ct;
+        Values v;
+        random_values(r, v);
+        static const int shapes[] = {5, 7, 45, 13, 2, 32, 200, 202, 8, 14, 3, 15, 46, 34, 42, 36};
+        const int shape = r.pick(shapes);
+        std::vector<Arg> args;
+        call_shape_x(shape, v, "", &args, [](const char *, auto &&...) {});
+        std::vector<ScaleFmt> fmts;
+        std::vector<S> texts;
+        same_storage_formats(r, args.size(), L, K, true, fmts);
+        same_storage_texts(r, A, K, texts);
+        for (size_t k = 0; k < K; ++k) {
+            g_sink_rotation = static_cast<unsigned>((i + k) % 7);
+            ST::string prev(std::move(v.st));
+            ct.set(v, texts[k], arg_align);
+            succeed_st(v, prev, texts[k]);
+            sink_case(shape, v, fmts[k].text());
+            vrt::count("same_storage.contents");
+            if (r.chance(1, 2)) {       // a call that fails in every sink, from the same buffers (same length: a one-digit argument index becomes 9)
+                ScaleFmt bad = fmts[k];
+                std::vector<size_t> cand;
+                for (size_t q = 0; q < bad.fields.size(); ++q) if (bad.fields[q].argref >= 1 && bad.fields[q].argref <= 8) cand.push_back(q);
+                if (!cand.empty() && args.size() < 9) {
+                    bad.fields[r.pick(cand)].argref = 9;
+                    sink_case(shape, v, bad.text());
+                    vrt::count("same_storage.failing_call_between_two_contents");
+                }
+            }
+        }
+        g_sink_rotation = 0;
+        vrt::count("same_storage.cases");
+        if (vrt::want_sample("same_storage") && L == 64)
+            vrt::sample("same_storage", sfmt("shape %d: %zu format strings of %zu bytes in one buffer (\"%s\", \"%s\", ...), text arguments of %zu bytes rewritten in place, through all sinks", shape, K, L,
+                                             vrt::json_escape(fmts[0].text()).c_str(), vrt::json_escape(fmts[1].text()).c_str(), A));
+    });
+
+    vrt::require("soak.cases_with_70000_or_more_consecutive_sink_calls", 16);
+    vrt::require("soak.runs_of_64_or_more_equal_calls_then_an_interesting_one", 300);
+    vrt::phase("soak", vrt::thorough() ? 64 : 16, [&](uint64_t, Rng &r) {
+        PlacementScope ps;
+        g_light_sinks = true;                   // (a real file and standard output on every eighth call)
+        const size_t M = 40;
+        std::vector<std::unique_ptr<SoakEntry>> pool, boring;
+        for (size_t k = 0; k < M; ++k) pool.push_back(soak_entry(r, k % 4 == 3 ? 2 : 1));
+        for (size_t k = 0; k < 6; ++k) boring.push_back(soak_entry(r, 0));
+        const uint64_t evals0 = vrt::st().evaluations;
+        uint64_t cases = 0, runs = 0;
+        while (vrt::st().evaluations - evals0 < 90000) {
+            g_sink_rotation = static_cast<unsigned>(cases % 7);
+            if (r.chance(1, 150)) {
+                SoakEntry &b = *boring[r.below(boring.size())];
+                std::unique_ptr<SoakEntry> next = soak_entry(r, 2);
+                const size_t n = 64 + r.below(237);
+                for (size_t k = 0; k < n; ++k) soak_execute(b);
+                soak_execute(*next);
+                cases += n + 1;
+                ++runs;
+                if (r.chance(1, 4)) boring[r.below(boring.size())] = soak_entry(r, 0);
+                pool[r.below(M)] = std::move(next);
+            } else {
+                soak_execute(*pool[r.below(M)]);
+                ++cases;
+                if (r.chance(1, 25)) pool[r.below(M)] = soak_entry(r, r.chance(1, 3) ? 2 : 1);
+            }
+        }
+        g_sink_rotation = 0;
+        g_light_sinks = false;
+        const uint64_t calls = vrt::st().evaluations - evals0;
+        vrt::count("soak.sink_calls", calls);
+        vrt::count("soak.runs_of_64_or_more_equal_calls_then_an_interesting_one", runs);
+        if (calls >= 70000) vrt::count("soak.cases_with_70000_or_more_consecutive_sink_calls");
+        if (vrt::want_sample("soak")) vrt::sample("soak", sfmt("%llu consecutive format / printf / writef / format_latin_1 / _stfmt calls (%llu format calls of mixed shapes through the sinks) in one case, "
+                                                               "%llu runs of 64..300 equal plain calls each followed by an interesting one", static_cast<unsigned long long>(calls), static_cast<unsigned long long>(cases),
+                                                               static_cast<unsigned long long>(runs)));
+    });
+
+    vrt::require("alignment.format_strings", 250);
+    vrt::require("alignment.calls_with_a_format_string_behind_foreign_bytes", 150000);
+    const unsigned usual_budget = vrt::case_cpu_budget();
+    vrt::case_cpu_budget() = 10;                // (small cases: a parser that runs away from such a string is stopped early)
+    vrt::phase("alignment", vrt::tier_count(255, 20400), [&](uint64_t i, Rng &r) {
+        PlacementScope ps;
+        g_light_sinks = true;
+        Values v;
+        random_values(r, v);
+        static const int shapes[] = {1, 2, 3, 5, 6, 7, 9, 10, 12, 47, 0, 200};
+        const int shape = r.pick(shapes);
+        std::vector<Arg> args;
+        call_shape_x(shape, v, "", &args, [](const char *, auto &&...) {});
+        ScaleFmt sf;
+        alignment_format((i * 7) % 1020 + (i / 1020) * 1020, r, args.size(), true, sf);
+        fix_for_sinks(sf, args);
+        const S fmt = sf.text();
+        Placement &pl = placement();
+        pl.mode = 2;
+        for (size_t a = 0; a < 16; ++a)
+            for (int q = 0; q < N_ALIGN_PREFIXES; ++q) {
+                pl.align = a;
+                pl.prefix = ALIGN_PREFIXES[q];
+                pl.fill_with_prefix = ((a + static_cast<size_t>(q) + i) % 2) != 0;
+                g_sink_rotation = static_cast<unsigned>((a + static_cast<size_t>(q)) % 7);
+                sink_case(shape, v, fmt);
+            }
+        g_sink_rotation = 0;
+        g_light_sinks = false;
+    });
+    vrt::case_cpu_budget() = usual_budget;
+    g_sink_rotation = 0;
+    g_light_sinks = false;
+}
+
 static void body()
 {
     ambient::enable(3);
@@ -374,7 +671,7 @@ static void body()
         random_values(r, v);
         int shape = static_cast<int>(r.below(NSHAPES));
         std::vector<Arg> args;
-        call_shape(shape, v, "", &args, [](const char *, auto &&...) {});
+        call_shape_x(shape, v, "", &args, [](const char *, auto &&...) {});
         S fmt = random_literal(r);
         size_t nf = args.empty() ? 0 : r.below(4), seq = 0;
         for (size_t k = 0; k < nf; ++k) {
@@ -451,7 +748,7 @@ static void body()
         ScaleFmt sf;
         nul_precision_case(r, v, shape, sf);
         std::vector<Arg> args;
-        call_shape(shape, v, "", &args, describe_only);
+        call_shape_x(shape, v, "", &args, describe_only);
         fix_for_sinks(sf, args);
         sink_case(shape, v, sf.text());
     });
@@ -477,7 +774,7 @@ static void body()
         static const int shapes[] = {1, 2, 3, 5, 6, 7, 9, 10, 11, 12, 47, 200, 201, 202};
         const int shape = r.pick(shapes);
         std::vector<Arg> args;
-        call_shape(shape, v, "", &args, describe_only);
+        call_shape_x(shape, v, "", &args, describe_only);
         ScaleFmt sf;
         if (!scale_literal_chain(r, p, p.kind, args.size(), CAP, true, sf)) { vrt::count("scale.literal.skipped_too_large"); return; }
         fix_for_sinks(sf, args);
@@ -497,7 +794,7 @@ static void body()
         static const int shapes[] = {200, 201, 202, 5, 47, 1, 10, 12, 200, 202};
         const int shape = r.pick(shapes);
         std::vector<Arg> args;
-        call_shape(shape, v, "", &args, describe_only);
+        call_shape_x(shape, v, "", &args, describe_only);
         ScaleFmt sf;
         scale_many_fields(i, r, args.size(), false, sf);
         fix_for_sinks(sf, args);
@@ -520,11 +817,12 @@ static void body()
         ArgCase c;
         scale_arg_case(i, r, v, c, (1u << 20) + 4096, 1u << 21);
         std::vector<Arg> args;
-        call_shape(c.shape, v, "", &args, describe_only);
+        call_shape_x(c.shape, v, "", &args, describe_only);
         fix_for_sinks(c.f, args);
         sink_case(c.shape, v, c.f.text());
         if (vrt::want_sample("scale-arguments")) vrt::sample("scale-arguments", sfmt("shape %d, format \"%s\": %s, through all sinks", c.shape, vrt::json_escape(c.f.text().substr(0, 80)).c_str(), c.what.c_str()));
     });
+    history_phases();
     vrt::alloc::check_pairing("sinks");
 }
 
